@@ -142,6 +142,8 @@ def plan(tier, seed):
         for s in range(0, PER[tier] // 2, k):
             units.append({"cls": c, "ci": ci, "flip": "alternating", "start": s, "stop": min(PER[tier] // 2, s + k),
                           "w": WEIGHT[c] * k * 1.5})
+    if tier == "thorough":
+        units.append({"kind": "suite", "w": 10 ** 7})   # the repository's own tests with the contracts installed (DESIGN 1.5)
     return units
 
 
@@ -474,7 +476,15 @@ def feed_read(ctx, rlog, how, completed):
 
 # --------------------------------------------------------------------------------------- contracts
 def _flip_now(ctx):
-    return getattr(ctx, "c16_flip", None)
+    f = getattr(ctx, "c16_flip", None)
+    if f is None and (getattr(ctx, "unit", None) or {}).get("kind") == "suite":
+        # replay of the repository's tests: the option is whatever the running test has configured right now
+        from autoconf import conf
+        try:
+            return int(bool(conf.instance["general"]["fits"]["flip_for_ds9"]))
+        except Exception:
+            return None
+    return f
 
 
 def post_hdu2d(ctx, a, result, old):
@@ -532,6 +542,11 @@ def setup(ctx):
             ctx.inconclusive.append("audit hook self-test failed: %r" % (detail,))
     finally:
         shutil.rmtree(d, ignore_errors=True)
+    install_contracts(ctx)
+
+
+def install_contracts(ctx):
+    """Also used by harness/suite_plugin.py (the repository's own tests drive the contracts in the thorough tier)."""
     from autoarray.structures.arrays import array_2d_util, array_1d_util
     contracts.attach(ctx, array_2d_util, "hdu_for_output_from", post_hdu2d)
     contracts.attach(ctx, array_1d_util, "hdu_for_output_from", post_hdu1d)
